@@ -9,6 +9,8 @@ import (
 	"fmt"
 	"go/types"
 	"math/big"
+
+	"gosym/smt"
 )
 
 func bigFromValue(p *value) *big.Int {
@@ -41,6 +43,50 @@ func bigToValue(p *value, b *big.Int) {
 		ws[k] = uint(w)
 	}
 	s[1] = ws
+}
+
+// bigIsSym reports whether the Int has symbolic words.
+func bigIsSym(p *value) bool {
+	if p == nil {
+		return false
+	}
+	for _, w := range (*p).(structure)[1].([]value) {
+		if _, ok := w.(symv); ok {
+			return true
+		}
+	}
+	return false
+}
+
+// bigBytesBE returns the magnitude as big-endian byte values (8 per word).
+func (i *interpreter) bigBytesBE(p *value) []value {
+	words := (*p).(structure)[1].([]value)
+	var out []value
+	for k := len(words) - 1; k >= 0; k-- {
+		wt := i.term(words[k])
+		for b := 7; b >= 0; b-- {
+			out = append(out, fromTerm(i.cx.Extract(wt, b*8+7, b*8), types.Uint8))
+		}
+	}
+	return out
+}
+
+// bigWide returns the magnitude as one bit-vector of the given width.
+func (i *interpreter) bigWide(p *value, width int) *smt.Term {
+	words := (*p).(structure)[1].([]value)
+	var t *smt.Term
+	for k := len(words) - 1; k >= 0; k-- {
+		wt := i.term(words[k])
+		if t == nil {
+			t = wt
+		} else {
+			t = i.cx.Concat(t, wt)
+		}
+	}
+	if t == nil {
+		return i.cx.BV(0, width)
+	}
+	return i.cx.Zext(t, width)
 }
 
 func init() {
@@ -163,13 +209,42 @@ func init() {
 		return z
 	}
 	stubs["(*math/big.Int).Sign"] = func(fr *frame, args []value) value {
-		return bigFromValue(args[0].(*value)).Sign()
+		i := fr.i
+		x := args[0].(*value)
+		if bigIsSym(x) {
+			if (*x).(structure)[0] != false {
+				panic(unsupported("Sign of negative symbolic big.Int"))
+			}
+			w := 64 * len((*x).(structure)[1].([]value))
+			return fromTerm(i.cx.Ite(i.cx.Eq(i.bigWide(x, w), i.cx.BV(0, w)), i.cx.BV(0, 64), i.cx.BV(1, 64)), types.Int)
+		}
+		return bigFromValue(x).Sign()
 	}
 	stubs["(*math/big.Int).BitLen"] = func(fr *frame, args []value) value {
 		return bigFromValue(args[0].(*value)).BitLen()
 	}
 	stubs["(*math/big.Int).Cmp"] = func(fr *frame, args []value) value {
-		return bigFromValue(args[0].(*value)).Cmp(bigFromValue(args[1].(*value)))
+		i := fr.i
+		x, y := args[0].(*value), args[1].(*value)
+		if x == nil || y == nil {
+			panic(targetPanic{"runtime error: invalid memory address or nil pointer dereference (*big.Int)"})
+		}
+		if !bigIsSym(x) && !bigIsSym(y) {
+			return bigFromValue(x).Cmp(bigFromValue(y))
+		}
+		if (*x).(structure)[0] != false || (*y).(structure)[0] != false {
+			panic(unsupported("Cmp of negative symbolic big.Int"))
+		}
+		w := 64 * len((*x).(structure)[1].([]value))
+		if w2 := 64 * len((*y).(structure)[1].([]value)); w2 > w {
+			w = w2
+		}
+		if w == 0 {
+			return 0
+		}
+		a, b := i.bigWide(x, w), i.bigWide(y, w)
+		lt, eq := i.cx.Ult(a, b), i.cx.Eq(a, b)
+		return fromTerm(i.cx.Ite(lt, i.cx.BV(^uint64(0), 64), i.cx.Ite(eq, i.cx.BV(0, 64), i.cx.BV(1, 64))), types.Int)
 	}
 	stubs["(*math/big.Int).Int64"] = func(fr *frame, args []value) value {
 		return bigFromValue(args[0].(*value)).Int64()
@@ -206,22 +281,59 @@ func init() {
 		return out
 	}
 	stubs["(*math/big.Int).SetBytes"] = func(fr *frame, args []value) value {
+		i := fr.i
 		z := args[0].(*value)
 		in := args[1].([]value)
-		bs := make([]byte, len(in))
-		for k, b := range in {
-			c, ok := b.(uint8)
-			if !ok {
-				panic(unsupported("big.Int.SetBytes on symbolic bytes"))
-			}
-			bs[k] = c
+		if bs, ok := valuesToBytes(in); ok {
+			bigToValue(z, new(big.Int).SetBytes(bs))
+			return z
 		}
-		bigToValue(z, new(big.Int).SetBytes(bs))
+		// symbolic bytes: words are built without normalisation (leading
+		// words may be zero); only Cmp, FillBytes and DER encoding accept that
+		nw := (len(in) + 7) / 8
+		words := make([]value, nw)
+		for k := 0; k < nw; k++ {
+			var t *smt.Term
+			for b := 7; b >= 0; b-- {
+				pos := len(in) - 1 - (k*8 + b)
+				var bt *smt.Term
+				if pos < 0 {
+					bt = i.cx.BV(0, 8)
+				} else {
+					bt = i.term(in[pos])
+				}
+				if t == nil {
+					t = bt
+				} else {
+					t = i.cx.Concat(t, bt)
+				}
+			}
+			words[k] = fromTerm(t, types.Uint)
+		}
+		s := (*z).(structure)
+		s[0] = false
+		s[1] = words
 		return z
 	}
 	stubs["(*math/big.Int).FillBytes"] = func(fr *frame, args []value) value {
-		x := bigFromValue(args[0].(*value))
+		i := fr.i
 		buf := args[1].([]value)
+		if bigIsSym(args[0].(*value)) {
+			be := i.bigBytesBE(args[0].(*value))
+			// bytes that do not fit must be zero, otherwise FillBytes panics
+			for len(be) > len(buf) {
+				if !i.decide(i.cx.Eq(i.term(be[0]), i.cx.BV(0, 8))) {
+					panic(targetPanic{"math/big: buffer too small to fit value"})
+				}
+				be = be[1:]
+			}
+			for k := range buf {
+				buf[k] = uint8(0)
+			}
+			copy(buf[len(buf)-len(be):], be)
+			return buf
+		}
+		x := bigFromValue(args[0].(*value))
 		if (x.BitLen()+7)/8 > len(buf) {
 			panic(targetPanic{"math/big: buffer too small to fit value"})
 		}
